@@ -2,9 +2,9 @@ package main
 
 import (
 	"fmt"
-	"os"
 	"go/constant"
 	"go/types"
+	"os"
 	"sort"
 	"strings"
 
@@ -358,7 +358,6 @@ func parseOpSites() []*chSite {
 	}
 }
 
-
 var tokenEQL = tokenEQLv()
 
 func ruleCHParseOps(r *Run) {
@@ -490,7 +489,7 @@ func parseSites2() []*chSite {
 			Pin:   [][2]string{},
 			Claim: "vector aggregation function token maps to the vector operation it spells"},
 		{Rule: "CH-MAP", Rel: logqlPkg, Recv: "*parser", Fn: "parseMetricExpr1", TagType: tt, TagConst: "OpenParen",
-			Outcome: outCalls("parseExpr", "parseRangeAggregationExpr", "parseVectorAggregationExpr", "parseLiteralExpr", "parseLabelReplace", "parseVectorExpr"),
+			Outcome:  outCalls("parseExpr", "parseRangeAggregationExpr", "parseVectorAggregationExpr", "parseLiteralExpr", "parseLabelReplace", "parseVectorExpr"),
 			Expected: route, Other: "error",
 			Claim: "a metric expression starting with this token is parsed by the matching production"},
 		{Rule: "CH-MAP", Rel: logqlPkg, Recv: "*parser", Fn: "parsePipeline", TagType: tt, TagConst: "JSON",
@@ -617,10 +616,10 @@ func builderSites() []*chSite {
 				"OpNotEq": "error|type:logqlengine.NotMatcher[netip.Addr,logqlengine.EqualIPMatcher]|type:logqlengine.NotMatcher[netip.Addr,logqlengine.PrefixIPMatcher]|type:logqlengine.NotMatcher[netip.Addr,logqlengine.RangeIPMatcher]"},
 			Other: "error", Claim: "ip matcher implements = and != (negated forms wrap the positive matcher in NotMatcher)"},
 		{Rule: "CH-MAP", Rel: enginePkg, Fn: "buildLabelPredicate", TagType: op, TagConst: "OpAnd",
-			Outcome: onlyPrefix(outReturn(0, "", ""), "type:"),
+			Outcome:  onlyPrefix(outReturn(0, "", ""), "type:"),
 			Expected: map[string]string{"OpAnd": "type:*logqlengine.AndLabelMatcher", "OpOr": "type:*logqlengine.OrLabelMatcher"},
-			Only:  func(n string) bool { return n == "OpAnd" || n == "OpOr" || n == "OpUnless" || n == "<other>" },
-			Other: "", Claim: "and/or predicate builds the matching composite"},
+			Only:     func(n string) bool { return n == "OpAnd" || n == "OpOr" || n == "OpUnless" || n == "<other>" },
+			Other:    "", Claim: "and/or predicate builds the matching composite"},
 	}
 }
 
